@@ -489,6 +489,9 @@ Definition valid_name (name : bytes) : bool :=
   utf8_valid name && negb (memb x00 name)
   && forallb (fun s => (length s <=? 255)%nat) (split_slash name).
 
+(* a component the kernel refuses by itself (EINVAL for a NUL, ENAMETOOLONG) *)
+Definition bad_component (s : bytes) : bool := memb x00 s || negb (length s <=? 255)%nat.
+
 Definition proper_prefixes (name : bytes) : list bytes :=
   (fix go (segs : list bytes) (cur : bytes) (first : bool) : list bytes :=
      match segs with
@@ -511,8 +514,21 @@ Definition fs_open (t : fstab) (root : N) (rel : bytes) : open_res :=
     | _ => false
     end in
   let hard_error := if first_is_file then OpNotExist else OpError in
+  (* os.Root walks the name component by component: a component with a NUL or longer than 255 bytes
+     fails (EINVAL / ENAMETOOLONG) only when the walk gets there, i.e. when everything before it is
+     a directory; a missing earlier component answers ENOENT first *)
+  let reaches_bad :=
+    (fix go (segs : list bytes) (cur : bytes) (first : bool) : bool :=
+       match segs with
+       | [] => false
+       | s :: r =>
+         if bad_component s then true
+         else let cur' := if first then s else cur ++ x2f :: s in
+              match fs_lookup t root cur' with Some KDir => go r cur' false | _ => false end
+       end) (split_slash name) [] true in
   if is_nil name then OpNotExist                      (* the root directory itself: hidden *)
-  else if negb (valid_name name) then hard_error      (* ErrInvalid / EINVAL / ENAMETOOLONG *)
+  else if negb (utf8_valid name) then hard_error      (* fs.ValidPath: ErrInvalid, before any lookup *)
+  else if reaches_bad then hard_error                 (* EINVAL / ENAMETOOLONG at that component *)
   else match fs_lookup t root name with
        | Some (KReg d) => OpFile d
        | Some KDir => OpNotExist                      (* filesOnlyFS *)
